@@ -76,7 +76,10 @@ IsROom(r) == IsOom(r.v)
 (*   p: parameter type; nul: null allowed; unk: unknown passed through;    *)
 (*   dyn: dynamic-typed values passed through                              *)
 Param(t, nul, unk, dyn) == [t |-> t, nul |-> nul, unk |-> unk, dyn |-> dyn]
-FnNames == {"id", "upper", "add", "cat", "nn", "fail", "len"}
+FnNames == {"id", "upper", "add", "cat", "nn", "fail", "len", "try", "can"}
+\* functions whose parameters are expression closures (ext/customdecode): the arguments are not
+\* evaluated before the call, the function evaluates them itself (ext/tryfunc/README.md)
+LazyFns == {"try", "can"}
 FnParams(f) ==
     CASE f = "id"    -> <<Param(TDyn, TRUE, TRUE, TRUE)>>
       [] f = "upper" -> <<Param(TStr, FALSE, FALSE, FALSE)>>
@@ -455,8 +458,34 @@ CallArgs(f, args, i, acc) ==
             ELSE IF c.v.k = "unk" /\ ~p.unk THEN CallArgs(f, args, i + 1, [acc EXCEPT !.unk = TRUE, !.vs = Append(@, c.v)])
             ELSE CallArgs(f, args, i + 1, [acc EXCEPT !.vs = Append(@, c.v)])
 
+\* try(e1, e2, ...): the value of the first argument expression that evaluates without error; an
+\* argument that succeeds but is not wholly known makes the whole result unknown (its final value
+\* may still fail); no argument, or none that succeeds, is an error.
+RECURSIVE TryFold(_, _, _), WhollyKnownV(_)
+WhollyKnownV(v) == v.k # "unk" /\ \A i \in 1..Len(v.e) : WhollyKnownV(v.e[i])
+TryFold(args, env, i) ==
+    IF i > Len(args) THEN RErrDyn
+    ELSE LET r == Eval(args[i], env) IN
+         IF IsROom(r) THEN ROom
+         ELSE IF r.err THEN TryFold(args, env, i + 1)
+         ELSE IF IsOom(r.v) THEN ROom
+         ELSE IF ~WhollyKnownV(r.v) THEN R(DynVal, FALSE)
+         ELSE R(r.v, FALSE)
+\* can(e): whether e evaluates without error (unknown while e's value is not wholly known)
+EvalCan(args, env) ==
+    IF Len(args) # 1 THEN RErrDyn
+    ELSE LET r == Eval(args[1], env) IN
+         IF IsROom(r) THEN ROom
+         ELSE IF r.err THEN R(Bool(FALSE), FALSE)
+         ELSE IF IsOom(r.v) THEN ROom
+         ELSE IF ~WhollyKnownV(r.v) THEN R(Unk(TBool), FALSE)
+         ELSE R(Bool(TRUE), FALSE)
+
 EvalCall(e, env) ==
     IF e.s \notin FnNames THEN RErrDyn                       \* call to unknown function
+    ELSE IF e.s \in LazyFns THEN
+        (IF e.n = 1 THEN ROom                               \* expanded closure arguments: no statement
+         ELSE IF e.s = "try" THEN TryFold(e.sub, env, 1) ELSE EvalCan(e.sub, env))
     ELSE
     LET nargs == Len(e.sub)
         fixed == IF e.n = 1 THEN SubSeq(e.sub, 1, nargs - 1) ELSE e.sub
